@@ -5,8 +5,9 @@ quiescent points (no edit_constant block open): a rebind attempt must raise Type
 
 PROP = 'C14'
 LEVEL = 'exploration'
-RULE = ('random histories over a 1-3 level hierarchy (constant Parameter / constant List / readonly Number / plain '
-        'parameter, `name`) with 2-4 instances: constructor arguments, instance sets, update (single and multi key), '
+RULE = ('random histories over a 1-3 level hierarchy (constant Parameter / constant List / constant allow_refs Parameter / '
+        'readonly Number / plain parameter, `name`) with 2-4 instances: constructor arguments (objects, references with a '
+        'value, references without a value yet), instance sets, update (single and multi key), '
         'class-level sets on declaring class and subclasses, re-assignment of the identical object, nested and raising '
         'edit_constant blocks (also with other instances touched inside), reads of inst.param[p] (creates per-instance '
         'Parameter copies before/after blocks). Judged against a model: held object identity per (instance, parameter), '
@@ -21,7 +22,8 @@ ASSUMPTIONS = [
     'say whose block counts); what is judged is that every flag is restored once all blocks have exited',
     're-assigning the identical object may raise or not; only "the held object did not change" is required',
 ]
-REQUIRED = {'forbidden_attempts': 3000, 'blocks': 500, 'blocks_raised': 100, 'flag_probes': 2000}
+REQUIRED = {'forbidden_attempts': 3000, 'blocks': 500, 'blocks_raised': 100, 'flag_probes': 2000, 'ctor_constant_reference': 50,
+            'ctor_constant_pending_reference': 50}
 
 _st = {}
 
@@ -62,6 +64,7 @@ def run_case(idx, rng, P, rep):
         if d == 0:
             ns = dict(c=param.Parameter(default=Tok(), constant=True),
                       cl=param.List(default=[1, 2], constant=True),
+                      cr=param.Parameter(default=Tok(), constant=True, allow_refs=True),
                       r=param.Number(default=3, readonly=True),
                       plain=param.Parameter(default=None))
             if rng.random() < 0.5:
@@ -73,7 +76,7 @@ def run_case(idx, rng, P, rep):
                 ns['plain'] = param.Parameter(default=1)
         base = type(f'K{idx}_{d}', (base,), ns)
         classes.append(base)
-    CONST = ['c', 'cl', 'name']
+    CONST = ['c', 'cl', 'cr', 'name']
     insts = []
     held = []          # per instance: {pname: object}
     touched_foreign = set()   # instances touched while a block on a *different* instance was open
@@ -101,13 +104,39 @@ def run_case(idx, rng, P, rep):
             return f'n{Tok().k}'
         return Tok()
 
+    class Src(param.Parameterized):
+        v = param.Parameter(default=None)
+        ready = param.Boolean(default=False)
+
+    sources = []       # kept alive; never updated, so a linked constant keeps what it got at construction
+
     def add_instance(K=None, kw=None):
         K = K or rng.choice(classes)
-        kw = kw or {}
+        kw = dict(kw or {})
+        expect = dict(kw)
+        if 'cr' in kw:
+            # a constant that accepts references: plain object, a reference with a value, or one without a value yet
+            how = rng.choice(['plain', 'ref', 'pending'])
+            if how == 'ref':
+                src = Src(v=kw['cr'])
+                sources.append(src)
+                kw['cr'] = src.param.v
+                rep.count('ctor_constant_reference')
+            elif how == 'pending':
+                src = Src()
+                sources.append(src)
+
+                def when_ready(ready):
+                    if not ready:
+                        raise param.Skip
+                    return 'linked'
+                kw['cr'] = param.bind(when_ready, src.param.ready)
+                expect['cr'] = K.cr        # no value yet: the instance holds what the class had at construction
+                rep.count('ctor_constant_pending_reference')
         o = K(**kw)
         insts.append(o)
         held.append({p: getattr(o, p) for p in CONST})
-        for p, v in kw.items():
+        for p, v in expect.items():
             if p in CONST and getattr(o, p) is not v:
                 viol('ctor-arg-not-installed', f'{K.__name__}({p}=...) holds another object')
         return len(insts) - 1
@@ -200,7 +229,7 @@ def run_case(idx, rng, P, rep):
 
     def class_flags(where):
         for K in classes:
-            for p in ('c', 'cl', 'name'):
+            for p in ('c', 'cl', 'cr', 'name'):
                 if K.param[p].constant is not True:
                     viol('class-flag-not-restored' + (FOREIGN if tainted_cls else ''),
                          f'{where}: {K.__name__}.param.{p}.constant is {K.param[p].constant}')
@@ -239,7 +268,7 @@ def run_case(idx, rng, P, rep):
             elif c < 0.46:
                 kinds.append('class_set')
                 K = rng.choice(classes)
-                p = rng.choice(['c', 'cl'])
+                p = rng.choice(['c', 'cl', 'cr'])
                 v = new_value(p)
                 trace.append(('class_set', K.__name__, p, repr(v), f'open={open_blocks}'))
                 if open_blocks:
